@@ -16,7 +16,7 @@ B1  every state of those runs is a case: (pattern + maps + synthesised URIs), (r
       * the laws are evaluated over what the real code returned (P) -> VIOLATION / KNOWN-FINDING,
       * the complete results are compared with what the specification computes (M) -> MODEL-DRIFT note.
 """
-import concurrent.futures, hashlib, json, os, random, time
+import concurrent.futures, hashlib, json, os, random, re, time
 from vlib import core
 from vlib import replay as rp
 
@@ -501,11 +501,19 @@ def gen_cfg(maxlen, findings=ALL_FINDINGS, dump=True):
     return core.cfg(init="GenInit", next_="GenNext", constants=k, invariants=GEN_LAWS + (["StrDump"] if dump else []))
 
 
+def sim_cfg():
+    k = dict(LitSyms=tset(["a", "ae", "b", "ue", "ul", "ur"]), ParSyms=tset(["x", "y", "xe"]), Schemes=tset(["", "s", "t", "sr"]),
+             AbsFlags=tset([True, False]), MaxSegs=5, MaxRoutes=5, Findings=tset(ALL_FINDINGS), DeepOverlap=False)
+    return core.cfg(next_="SimNext", constants=k, invariants=[l for l in LAWS if l != "TypeOK"] + ["PatDump", "TabDump"],
+                    properties=["FindIsTheMatch"])
+
+
 def plan(tier):
-    """(name, module, cfg text, workers, themes per record)"""
+    """(name, module, cfg text, workers, themes per record[, simulate])"""
     L6 = ["a", "ae", "b", "ue", "ul", "ur"]
     if tier == "quick":
         return [
+            ("simulation", "MC_Route", sim_cfg(), 1, 1, "num=400"),
             ("patterns", "MC_Route", route_cfg(L6, ["x", "y", "xe"], ["", "s", "sr"], [True, False], 2, 1), 1, 6),
             ("patterns3", "MC_Route", route_cfg(["a", "ae", "ur"], ["x", "xe"], ["", "s"], [True, False], 3, 1), 1, 2),
             ("pairs", "MC_Route", route_cfg(["a", "ae", "b"], ["x", "y"], ["", "s"], [True, False], 2, 2), 1, 1),
@@ -515,6 +523,7 @@ def plan(tier):
             ("parser", "Gen_Route", gen_cfg(6), 1, 2),
         ]
     return [
+        ("simulation", "MC_Route", sim_cfg(), 1, 2, "num=20000"),
         ("patterns", "MC_Route", route_cfg(L6, ["x", "y", "xe"], ["", "s", "t", "sr"], [True, False], 3, 1), 1, 6),
         ("pairs", "MC_Route", route_cfg(["a", "ae", "b", "ue", "ur"], ["x", "y", "xe"], ["", "s", "t"], [True, False], 2, 2), 1, 2),
         ("pairs3", "MC_Route", route_cfg(["a", "ae", "b", "ur"], ["x", "y"], [""], [True], 3, 2), 1, 2),
@@ -578,9 +587,11 @@ def run(tier, out):
 
     def tlc_job(job):
         name, module, cfgtext, workers = job[0], job[1], job[2], (job[3] if len(job) > 3 else 1)
+        sim = job[5] if len(job) > 5 else None
         try:
             return core.run_tlc(module, cfgtext, os.path.join(wd, "tlc_" + name), workers=workers, timeout=3000,
-                                xmx="6g" if tier == "thorough" else "3g")
+                                xmx="6g" if tier == "thorough" else "3g", simulate=sim,
+                                extra=["-depth", "10", "-seed", str(core.seed())] if sim else ())
         except core.ToolError as ex:
             return ex
 
@@ -588,6 +599,7 @@ def run(tier, out):
         fut_main = [ex.submit(tlc_job, j) for j in pl]
         fut_cx = [ex.submit(tlc_job, j) for j in cx]
         tot_states = tot_trans = 0
+        sim_states = [0]
         cov = {}
         runs_info = []
         n_cases = 0
@@ -599,8 +611,23 @@ def run(tier, out):
             if not r.ok:
                 raise core.ToolError("the mechanism model breaks a law beyond the excused findings in run '%s' (%s %s):\n%s" % (
                     name, r.status, r.violated, r.counterexample[:3000]))
-            tot_states += r.distinct
-            tot_trans += r.generated
+            if len(job) > 5:
+                # simulation: TLC reports only "The number of states generated"; behaviours repeat records
+                m = re.search(r"The number of states generated: (\d+)", r.stdout)
+                r.generated = int(m.group(1)) if m else 0
+                for kind in ("PAT", "TAB"):
+                    seen, uniq = set(), []
+                    for x in r.tagged.get(kind, []):
+                        c = core.canon(x)
+                        if c not in seen:
+                            seen.add(c)
+                            uniq.append(x)
+                    r.tagged[kind] = uniq
+                r.distinct = len(r.tagged.get("PAT", [])) + len(r.tagged.get("TAB", []))
+                sim_states[0] += r.generated
+            else:
+                tot_states += r.distinct
+                tot_trans += r.generated
             for a, (d, t) in r.coverage.items():
                 o = cov.get(a, (0, 0))
                 cov[a] = (o[0] + d, o[1] + t)
@@ -646,7 +673,7 @@ def run(tier, out):
             cases_replayed=T.cases, real_operations=T.ops, model_drift=T.drift, p_rejections_unlisted=T.violations,
             law_evaluations_on_real_observations=T.law_evals,
             known_finding_cases={k: v[0] for k, v in T.known.items()},
-            tlc_runs=runs_info, b3_counterexamples_without_excuse=b3,
+            tlc_runs=runs_info, b3_counterexamples_without_excuse=b3, simulation_states_generated=sim_states[0],
             action_coverage={a: {"distinct": d, "taken": t} for a, (d, t) in cov.items()},
             actions_never_taken=never, exhaustive=True, themes=len(THEMES), char_themes=len(CHAR_THEMES),
             rule="every state of the TLC runs of MC_Route / Gen_Route (all patterns, route tables and pattern strings "
